@@ -192,7 +192,11 @@ func implsFor(key reflect.Type) []reflect.Type {
 func genInjCase(rng *rand.Rand) *injCase {
 	c := &injCase{Scopes: 1 + rng.Intn(3)}
 	n := 0
-	for k := rng.Intn(9); k > 0; k-- {
+	nregs := rng.Intn(9)
+	if rng.Intn(40) == 0 {
+		nregs = 9 + rng.Intn(30) // enough registrations to grow the type map several times
+	}
+	for k := nregs; k > 0; k-- {
 		key := c04Tys[rng.Intn(len(c04Tys))]
 		impls := implsFor(key)
 		impl := impls[rng.Intn(len(impls))]
@@ -222,7 +226,11 @@ func genInjCase(rng *rand.Rand) *injCase {
 	case 1:
 		c.Apply = true
 	default:
-		for k := rng.Intn(5); k > 0; k-- {
+		np := rng.Intn(5)
+		if rng.Intn(40) == 0 {
+			np = 5 + rng.Intn(8)
+		}
+		for k := np; k > 0; k-- {
 			c.Params = append(c.Params, tyName(pickParam(rng, c.Regs)))
 		}
 	}
